@@ -2,8 +2,10 @@
 //   storage layout <shapes.ndjson> <pairs.ndjson|-> <table.ndjson> <r> <K> <crossAll 0|1>
 //   storage pdata  <graph.ndjson> <shapes.ndjson> <table.ndjson> <r> <K> <mode edges|pairs> <walks> <shape ids...>
 //   storage record <out.ndjson> <shapes.ndjson> <shape id> <executions> <ops>
+//   storage xkind  <shapes.ndjson> <table.ndjson> <shape id>      archives handed to the loader of another kind
 // Exit 0 with a SUMMARY line; failures are FAIL lines.  Exit 3: the harness itself could not do its job.
 #include "storage_pdata.h"
+#include <sys/resource.h>
 
 BOOST_CLASS_EXPORT(ompl::control::PlannerDataEdgeControl);
 
@@ -391,6 +393,92 @@ static int cmdRecord(int argc, char **argv)
     return 0;
 }
 
+
+// ------------------------------------------------------------------------------------ xkind
+// The realistic "wrong marker": an archive of one kind handed to the loader of another.  Each load runs
+// in a child process with a 4 GiB address-space limit: the foreign header makes the loader read a
+// garbage length, and an attempt to allocate it must end as "rejected and reported", not as a crash
+// (and must never really take 16 GiB on the machine that runs the check).
+static int cmdXkind(int argc, char **argv)
+{
+    if (argc < 5)
+        return 3;
+    std::vector<std::string> order;
+    auto rows = readShapes(argv[2], order);
+    FaultTable tab(argv[3]);
+    if (!rows.count(argv[4]))
+        throw FrameworkFailure("shape not emitted");
+    Env env(makeShape(rows[argv[4]]), 2);
+    vt::Report rep;
+    Counters cnt;
+    std::string arch[3];
+    const char *kinds[3] = {"SS", "PD", "PDC"};
+    arch[0] = storeStates(*env.shape, 3);
+    json obs{{"n", 3}, {"ne", 1}, {"verts", json::array({json::array({1, 1}), json::array({2, 2}), json::array({3, 3})})},
+             {"starts", json::array({0})}, {"goals", json::array({2})}, {"edges", json::array({json::array({0, 1, 12})})}};
+    std::vector<std::pair<unsigned int, unsigned int>> eo{{0, 1}};
+    for (int control = 0; control < 2; ++control)
+    {
+        Rebuilt r;
+        rebuild(r, env, control != 0, obs, 3, eo, 1);
+        if (!storePD(*r.pd, control != 0, arch[1 + control]))
+            throw FrameworkFailure("cannot store the sample graph");
+    }
+    for (int a = 0; a < 3; ++a)
+        for (int l = 0; l < 3; ++l)
+        {
+            if (a == l)
+                continue;
+            if (tab.lookup(kinds[a], "foreign", "marker", false, true) != "Reject")
+                throw FrameworkFailure("table accepts a foreign archive");
+            fflush(stdout);
+            pid_t pid = fork();
+            if (pid < 0)
+                throw FrameworkFailure("fork failed");
+            if (pid == 0)
+            {
+                struct rlimit lim{4ULL << 30, 4ULL << 30};
+                setrlimit(RLIMIT_AS, &lim);
+                int devnull = open("/dev/null", O_WRONLY);
+                dup2(devnull, 1);
+                dup2(devnull, 2);
+                capture().reset();
+                bool accepted;
+                if (l == 0)
+                {
+                    ob::StateStorage st(env.shape->root);
+                    std::istringstream in(arch[a]);
+                    st.load(in);
+                    accepted = st.size() > 0;
+                }
+                else
+                {
+                    auto pd = freshPD(env, l == 2);
+                    accepted = loadPD(*pd, l == 2, arch[a]);
+                }
+                _exit(accepted ? 11 : capture().reported() ? 10 : 12);
+            }
+            int status = 0;
+            waitpid(pid, &status, 0);
+            ++rep.scenarios;
+            ++rep.steps;
+            json sc{{"archive", kinds[a]}, {"loader", kinds[l]}, {"space", env.shape->id}, {"part", "foreign-archive"}};
+            if (!WIFEXITED(status) || (WEXITSTATUS(status) != 10 && WEXITSTATUS(status) != 11 && WEXITSTATUS(status) != 12))
+                rep.fail(sc, std::string("xkind-crash: the loader did not survive an archive of another kind (") +
+                                 (WIFSIGNALED(status) ? "signal " + std::to_string(WTERMSIG(status))
+                                                      : "exit " + std::to_string(WEXITSTATUS(status))) +
+                                 ", uncaught exception under a 4 GiB address-space limit)");
+            else if (WEXITSTATUS(status) == 11)
+                rep.fail(sc, "xkind-accepted: an archive of another kind was accepted");
+            else if (WEXITSTATUS(status) == 12)
+                rep.fail(sc, "xkind-silent: an archive of another kind was rejected without a message");
+            else
+                cnt.add("foreign_archives_rejected");
+        }
+    rep.summary(json{{"counters", cnt.dump()}, {"table_hits", tab.dump()}});
+    return 0;
+}
+
 int main(int argc, char **argv)
 {
     vt::installCrashHandlers();
@@ -404,6 +492,8 @@ int main(int argc, char **argv)
             return cmdPdata(argc, argv);
         if (cmd == "record")
             return cmdRecord(argc, argv);
+        if (cmd == "xkind")
+            return cmdXkind(argc, argv);
     }
     catch (const FrameworkFailure &f)
     {
